@@ -152,3 +152,88 @@ if __name__ == "__main__":
     for k, v in sorted(r.items()):
         if not v[0]:
             print("  -", k, v[1][:150])
+
+
+# ---- LEN: structural classification of steps that conserve the population size (C10) ---------------------------------------------
+def _len_preserving_iter(it, aliases):
+    """the iterable has exactly as many items as the population (or population_size, equal by the fixed-size invariant)"""
+    if _is_self_pop(it):
+        return True
+    if isinstance(it, ast.Name) and it.id in aliases.get("pop", set()):
+        return True
+    if isinstance(it, ast.Call) and isinstance(it.func, ast.Name):
+        if it.func.id == "enumerate" and it.args and (_is_self_pop(it.args[0]) or (isinstance(it.args[0], ast.Name) and it.args[0].id in aliases.get("pop", set()))):
+            return True
+        if it.func.id == "zip" and it.args and any(_is_self_pop(a) for a in it.args):
+            return False       # zip truncates to the shortest: not accepted syntactically
+        if it.func.id == "range":
+            hi = it.args[-1] if len(it.args) <= 2 else None
+            lo_ok = len(it.args) == 1 or (isinstance(it.args[0], ast.Constant) and it.args[0].value == 0)
+            return lo_ok and hi is not None and _is_size_expr(hi, aliases)
+    return False
+
+
+def _is_size_expr(e, aliases):
+    s = ast.unparse(e)
+    if s in ("len(self._population)", "self._config.population_size"):
+        return True
+    return isinstance(e, ast.Name) and e.id in aliases.get("size", set())
+
+
+def classify_len_class(ci):
+    reasons = []
+    forms = 0
+    for hname in ("optimization_step", "after_initialization"):
+        step = ci.methods.get(hname)
+        if step is None:
+            continue
+        aliases = {"size": set(), "pop": set()}
+        for node in ast.walk(step):
+            if isinstance(node, ast.Assign) and len(node.targets) == 1:
+                t = node.targets[0]
+                names = [x.id for x in (t.elts if isinstance(t, ast.Tuple) else [t]) if isinstance(x, ast.Name)]
+                vals = node.value.elts if isinstance(node.value, ast.Tuple) and isinstance(t, ast.Tuple) else [node.value] * len(names)
+                for n_, v_ in zip(names, vals):
+                    if _is_size_expr(v_, {"size": set()}):
+                        aliases["size"].add(n_)
+        for node in ast.walk(step):
+            if isinstance(node, ast.Assign):
+                for t in node.targets:
+                    if _is_self_pop(t):
+                        forms += 1
+                        v = node.value
+                        if isinstance(v, ast.ListComp) and len(v.generators) == 1 and not v.generators[0].ifs and \
+                                _len_preserving_iter(v.generators[0].iter, aliases):
+                            continue
+                        if isinstance(v, ast.Call) and isinstance(v.func, ast.Name) and v.func.id in ("sort_by_cost", "sorted") and v.args and _is_self_pop(v.args[0]):
+                            continue
+                        if isinstance(v, ast.Call) and isinstance(v.func, ast.Name) and v.func.id == "sort_and_trim" and len(v.args) == 2 and \
+                                _is_size_expr(v.args[1], aliases) and "self._population" in ast.unparse(v.args[0]) and \
+                                isinstance(v.args[0], (ast.BinOp, ast.Attribute)):
+                            continue
+                        reasons.append(f"{hname} line {node.lineno}: self._population = {ast.unparse(v)[:60]}")
+                    elif isinstance(t, ast.Subscript) and _is_self_pop(t.value) and not isinstance(t.slice, ast.Slice):
+                        forms += 1
+            if isinstance(node, ast.Call) and isinstance(node.func, ast.Attribute):
+                if isinstance(node.func.value, ast.Name) and node.func.value.id == "self":
+                    if node.func.attr in ("_greedy_select_population", "_extend_and_trim_population"):
+                        forms += 1
+                    elif node.func.attr == "_replace_and_trim_population":
+                        reasons.append(f"{hname} line {node.lineno}: population replaced by a list of unknown length")
+                if _is_self_pop(node.func.value) and node.func.attr in ("append", "extend", "pop", "remove", "clear", "insert"):
+                    reasons.append(f"{hname} line {node.lineno}: self._population.{node.func.attr}(...)")
+            if isinstance(node, ast.Delete) and any(isinstance(t, ast.Subscript) and _is_self_pop(t.value) for t in node.targets):
+                reasons.append(f"{hname} line {node.lineno}: del self._population[...]")
+            if isinstance(node, ast.AugAssign) and _is_self_pop(node.target):
+                reasons.append(f"{hname} line {node.lineno}: self._population {type(node.op).__name__}= ...")
+    if ci.methods.get("_init_population") is not None or ci.methods.get("_generate_agents") is not None:
+        reasons.append("overrides _init_population")
+    if forms == 0 and not reasons:
+        reasons.append("no recognised update of the population")
+    return (not reasons), ("every update of the population keeps its length (unfiltered comprehension over the population, greedy / "
+                           "elitist kernel helper, in-place replacement, re-sort)" if not reasons else "; ".join(reasons[:3]))
+
+
+def classify_len(src: Source | None = None):
+    src = src or Source()
+    return {ci.name: classify_len_class(ci) for ci in src.subclasses_of(BASE)}
